@@ -16,9 +16,6 @@ AllSideIs(base, D, side, target) ==
   LET r == ApplyDecisions(base, AllSide(D, side)) IN r.ok /\ Eq(r.v, target)
 
 AllDecisionSchemaOK(D) == \A k \in 1..Len(D) : DecisionSchemaOK(D[k])
-\* same, but tolerating the one action the published schema forgot (classifier)
-AllDecisionSchemaOKModTakeMax(D) ==
-  \A k \in 1..Len(D) : DecisionSchemaOK([D[k] EXCEPT !.action = IF @ = "take_max" THEN "base" ELSE @])
 AllDecisionPlainJSON(D) == \A k \in 1..Len(D) : DecisionPlainJSON(D[k])
 
 (***************************************************************************)
